@@ -8,9 +8,9 @@ model uses list (insertion) order — the only place where that order can influe
 is the order of several orphans waiting for the SAME output inside `processOrphans`
 (i.e. orphans that double-spend one output).
 
-`checkOrphanUtxos` appends `&hash` of the range variable; the module is `go 1.16`, so all
-pointers alias ONE variable whose final value is the LAST spent output id: the function
-returns that id repeated once per missing parent (`requireParents`).
+`checkOrphanUtxos` returns the missing parent outputs (`requireParents`). Since ec6e367b each
+pointer refers to its own copy of the spent output id (before, under go 1.16, `&hash` of the range
+variable aliased one variable and every entry read the LAST spent id).
 
 Core Lean only.
 -/
@@ -80,12 +80,9 @@ def Pool.empty : Pool := ⟨[], [], [], [], []⟩
 def missing (c : Cfg) (s : Pool) (tx : Tx) : List Out :=
   tx.spent.filter (fun o => !(c.conf.contains o) && !(amHas s.utxo o))
 
-/-- `checkOrphanUtxos` as compiled under go 1.16: one alias of the range variable per missing
-    parent, all reading the LAST spent output id -/
-def requireParents (c : Cfg) (s : Pool) (tx : Tx) : List Out :=
-  match tx.spent.getLast? with
-  | none => []
-  | some l => (missing c s tx).map (fun _ => l)
+/-- `checkOrphanUtxos`: the missing parent outputs, in spending order (`hash := spentOutputID`
+    gives every pointer its own variable) -/
+def requireParents (c : Cfg) (s : Pool) (tx : Tx) : List Out := missing c s tx
 
 /-- `addOrphan`; `false` = ErrPoolIsFull -/
 def addOrphan (c : Cfg) (s : Pool) (tx : Tx) (now : Nat) (req : List Out) : Pool × Bool :=
@@ -139,7 +136,9 @@ def processLoop (c : Cfg) : Nat → Pool → List Tx → Pool
       processLoop c f s3 sq.2
     else processLoop c f s q
 
-def entries (bp : List (Out × List (Nat × Tx))) : Nat := bp.foldl (fun n e => n + e.2.length) 0
+def entries : List (Out × List (Nat × Tx)) → Nat
+  | [] => 0
+  | e :: bp => e.2.length + entries bp
 
 def processOrphans (c : Cfg) (s : Pool) (tx : Tx) : Pool :=
   let fuel := entries s.byPrev + 1
